@@ -66,7 +66,7 @@ fn payload(t: T) -> Option<T> {
     _ => None,
   }
 }
-const PRELUDE: &str = "class Pair(val a: int, val b: int) {\n  method sum(): int = this.a + this.b\n  method plus(x: int): int = this.a + x\n  method swap(): Pair = Pair.init(this.b, this.a)\n}\nclass Color(Red, Green, Rgb(int, int)) {}\nclass Opt<T>(None, Some(T)) {}\nclass Wrap(W(Pair)) {}\n";
+const PRELUDE: &str = "interface Sized {\n  method size(): int\n}\nclass Pair(val a: int, val b: int) : Sized {\n  method size(): int = this.a - this.b\n  method sum(): int = this.a + this.b\n  method plus(x: int): int = this.a + x\n  method swap(): Pair = Pair.init(this.b, this.a)\n}\nclass Color(Red, Green, Rgb(int, int)) {}\nclass Opt<T>(None, Some(T)) {}\nclass Wrap(W(Pair)) {}\n";
 /// string constants: plain ASCII only (escapes and other characters are a pinned finding of C04); one is a suffix of another
 const STRINGS: [&str; 7] = ["", "a", "b", "ab", "World", "Hello World", "Hello"];
 
@@ -129,6 +129,14 @@ enum I {
   VecOps(Box<I>, Box<I>, Box<I>),
   /// Main.adder(e1)(e2) with adder(x) = (y) -> x + y: the callee expression is evaluated before the argument
   Curried(Box<I>, Box<I>),
+  /// { let (t, u) = (e1, e2); body over [.., t, u] }
+  TupleLet(Box<I>, Box<I>, Box<I>),
+  /// (if let Some(v) = d { e1 over [.., v] } else { e2 }) of an Opt<int>
+  IfLet(Box<D>, Box<I>, Box<I>),
+  /// match d { Red | Green -> e1, Rgb(x, y) -> e2 over [.., x, y] }: an or-pattern
+  OrMatch(Box<D>, Box<I>, Box<I>),
+  /// Main.measure(d, e): a generic function whose type parameter is bounded by an interface that Pair implements: (a - b) + e
+  Measure(Box<D>, Box<I>),
 }
 #[derive(Clone)]
 enum B {
@@ -263,7 +271,7 @@ impl<'a> Gen<'a> {
       let v = self.rng.below(sc.data.len() as u64) as usize;
       return self.consume(D::Var(v), sc.data[v], depth, sc);
     }
-    match self.rng.below(27) {
+    match self.rng.below(31) {
       11 => I::Seq(Box::new(self.int(depth - 1, sc)), Box::new(self.int(depth - 1, sc))),
       12 | 13 if self.n_recs > 0 => {
         let k = self.rng.below(self.n_recs as u64) as usize;
@@ -313,6 +321,19 @@ impl<'a> Gen<'a> {
         I::Mod(Box::new(self.int(depth - 1, sc)), ANY[self.rng.below(9) as usize])
       }
       17 if !self.nonneg_div => I::GuardedDiv(Box::new(self.int(depth - 1, sc)), Box::new(self.int(depth - 1, sc))),
+      26 => I::TupleLet(Box::new(self.int(depth - 1, sc)), Box::new(self.int(depth - 1, sc)), Box::new(self.int(depth - 1, &sc.with_ints(2)))),
+      27 => {
+        let d = self.data(T::OptInt, depth - 1, sc);
+        I::IfLet(Box::new(d), Box::new(self.int(depth - 1, &sc.with_ints(1))), Box::new(self.int(depth - 1, sc)))
+      }
+      28 => {
+        let d = self.data(T::Color, depth - 1, sc);
+        I::OrMatch(Box::new(d), Box::new(self.int(depth - 1, sc)), Box::new(self.int(depth - 1, &sc.with_ints(2))))
+      }
+      29 => {
+        let d = self.data(T::Pair, depth - 1, sc);
+        I::Measure(Box::new(d), Box::new(self.int(depth - 1, sc)))
+      }
       25 => I::Curried(Box::new(self.int(depth - 1, sc)), Box::new(self.int(depth - 1, sc))),
       18 => I::VecOps(Box::new(self.int(depth - 1, sc)), Box::new(self.int(depth - 1, sc)), Box::new(self.int(depth - 1, sc))),
       19 => {
@@ -780,6 +801,39 @@ fn int_text(e: &I, n: &mut Names) -> String {
       format!("{{ let {name} = {d_text}; {b} }}")
     }
     I::Curried(a, b) => format!("Main.adder({})({})", int_text(a, n), int_text(b, n)),
+    I::TupleLet(a, b, body) => {
+      let (ta, tb) = (int_text(a, n), int_text(b, n));
+      let id = n.fresh();
+      let (t, u) = (format!("t{id}"), format!("o{id}"));
+      n.ints.push(t.clone());
+      n.ints.push(u.clone());
+      let inner = int_text(body, n);
+      n.ints.pop();
+      n.ints.pop();
+      format!("{{ let ({t}, {u}) = ({ta}, {tb}); {inner} }}")
+    }
+    I::IfLet(d, some, none) => {
+      let d_text = data_text(d, n);
+      let v = format!("i{}", n.fresh());
+      n.ints.push(v.clone());
+      let some_text = int_text(some, n);
+      n.ints.pop();
+      let none_text = int_text(none, n);
+      format!("(if let Some({v}) = {d_text} {{ {some_text} }} else {{ {none_text} }})")
+    }
+    I::OrMatch(d, plain, rgb) => {
+      let d_text = data_text(d, n);
+      let p = int_text(plain, n);
+      let id = n.fresh();
+      let (x, y) = (format!("r{id}"), format!("s{id}"));
+      n.ints.push(x.clone());
+      n.ints.push(y.clone());
+      let b = int_text(rgb, n);
+      n.ints.pop();
+      n.ints.pop();
+      format!("(match {d_text} {{ Red | Green -> {p}, Rgb({x}, {y}) -> {b} }})")
+    }
+    I::Measure(d, k) => format!("Main.measure({}, {})", data_text(d, n), strict_int(k, n)),
     I::VecOps(e0, e1, e2) => {
       let (t0, t1, t2) = (int_text(e0, n), int_text(e1, n), int_text(e2, n));
       let v = format!("z{}", n.fresh());
@@ -855,7 +909,7 @@ fn data_text(e: &D, n: &mut Names) -> String {
 fn program_text(p: &Program) -> String {
   let mut fresh = 0usize;
   let mut s = String::from(PRELUDE);
-  s.push_str("class Main {\n  function p(label: int, v: int): int = { let _ = Process.println(\"p\" :: Str.fromInt(label)); v }\n  function pb(label: int, v: bool): bool = { let _ = Process.println(\"b\" :: Str.fromInt(label)); v }\n  function twice(g: (int) -> int, x: int): int = g(g(x))\n  function adder(x: int): (int) -> int = (y: int) -> x + y\n");
+  s.push_str("class Main {\n  function p(label: int, v: int): int = { let _ = Process.println(\"p\" :: Str.fromInt(label)); v }\n  function pb(label: int, v: bool): bool = { let _ = Process.println(\"b\" :: Str.fromInt(label)); v }\n  function twice(g: (int) -> int, x: int): int = g(g(x))\n  function adder(x: int): (int) -> int = (y: int) -> x + y\n  function <S: Sized> measure(x: S, k: int): int = x.size() + k\n");
   let mut text_of = |ints: &[&str], data: &[&str], f: &dyn Fn(&mut Names) -> String| {
     let mut n = Names::of(ints, data, fresh);
     let t = f(&mut n);
@@ -1076,6 +1130,27 @@ fn eval_int(r: &mut Run, e: &I, env: &mut Env) -> Option<i64> {
       with_data(env, v, |env| eval_int(r, body, env))?
     }
     I::Curried(a, b) => eval_int(r, a, env)? + eval_int(r, b, env)?,
+    I::TupleLet(a, b, body) => {
+      let (x, y) = (eval_int(r, a, env)?, eval_int(r, b, env)?);
+      with_ints(env, &[x, y], |env| eval_int(r, body, env))?
+    }
+    I::IfLet(d, some, none) => match eval_data(r, d, env)? {
+      V::SomeI(v) => with_ints(env, &[v], |env| eval_int(r, some, env))?,
+      V::None => eval_int(r, none, env)?,
+      other => panic!("generator: IfLet of {other:?}"),
+    },
+    I::OrMatch(d, plain, rgb) => match eval_data(r, d, env)? {
+      V::Red | V::Green => eval_int(r, plain, env)?,
+      V::Rgb(x, y) => with_ints(env, &[x, y], |env| eval_int(r, rgb, env))?,
+      other => panic!("generator: OrMatch of {other:?}"),
+    },
+    I::Measure(d, k) => match eval_data(r, d, env)? {
+      V::Pair(a, b) => {
+        let k = eval_int(r, k, env)?;
+        in_range(a - b)? + k
+      }
+      other => panic!("generator: Measure of {other:?}"),
+    },
     I::VecOps(e0, e1, e2) => {
       let (v0, v1, v2) = (eval_int(r, e0, env)?, eval_int(r, e1, env)?, eval_int(r, e2, env)?);
       // a Vec<int> element keeps 31 bits in the WebAssembly output (a pinned finding): such programs are left out
